@@ -812,6 +812,69 @@ static void run_diag2_extreme(vf_rng *r)
     }
 }
 
+/* ------------------------------------------------------------------ call sites spelled with the library's own kind of identifiers
+   Every monitor above varies VALUES. A routine that the header (also) provides as a function-like macro can depend on the SPELLING of the call
+   instead: a temporary declared inside the macro body hides a caller variable of the same name that an argument mentions (seeded change C09-M:
+   `#define a_real_triL(n, A, L) do { a_uint const n_ = (n); a_real_triL2(n_, n_, A, L); } while (0)` called as a_real_triL(n_, W + n_, L)).
+   The caller here names its variables the way the library names its private ones (trailing underscore: n_, m_, i_, r_, c_, p_, it_, num_, ptr_,
+   A_ ...) and mentions them in every argument; each call in its normal spelling is compared bit for bit with the same call made through the
+   parenthesised name - which no macro can intercept - on plainly named arguments, both on exact-size heap blocks. */
+static void hygiene_call_sites(unsigned mm, unsigned nn, vf_rng *r)
+{
+    a_uint const m = mm, n = nn;
+    size_t const mn = (size_t)m * n, hdr = (size_t)(m > n ? m : n) + 1;
+    a_uint m_ = m, n_ = n, i_ = m, j_ = n, r_ = m, c_ = n, k_ = n, num_ = n, row_ = m, col_ = n;
+    double *const W = (double *)malloc((hdr + (mn ? mn : 1)) * sizeof(double)); /* workspace: header of hdr cells, then the matrix */
+    double *A_ = W, *ptr_ = W, *p_ = W, *it_ = W, *x_ = W;
+    double *o1 = (double *)malloc((mn + hdr) * sizeof(double)), *o2 = (double *)malloc((mn + hdr) * sizeof(double));
+    size_t const nb = (mn + hdr) * sizeof(double);
+    if (!W || !o1 || !o2) { fprintf(stderr, "C09: out of memory\n"); exit(2); }
+    for (size_t i = 0; i < hdr + mn; ++i) { W[i] = (double)(1 + vf_below(r, 1000)); }
+#define HY_BOTH(name, macro_call, fn_call)                                                                                                     \
+    do {                                                                                                                                        \
+        memset(o1, 0x5A, nb); memset(o2, 0x5A, nb);                                                                                             \
+        { double *O_ = o1, *L_ = o1, *U_ = o1, *E_ = o1, *T_ = o1, *a_ = o1, *y_ = o1; (void)O_; (void)L_; (void)U_; (void)E_; (void)T_; (void)a_; (void)y_; macro_call; } \
+        { double *O = o2; fn_call; }                                                                                                            \
+        ++vf.evals;                                                                                                                             \
+        VF_COUNT("call-spelled-with-house-style-identifiers-vs-function");                                                                      \
+        if (memcmp(o1, o2, nb) != 0) { vf_viol(name "/call-site-spelling-changes-the-result", "m=%u n=%u: the call written with caller variables named n_, m_, i_ ... in its arguments gives a different result than the same call through the parenthesised function name", m, n); } \
+    } while (0)
+    HY_BOTH("T2", a_real_T2(m_, n_, A_ + hdr, T_ + 0 * n_), (a_real_T2)(m, n, W + hdr, O));
+    HY_BOTH("eye2", a_real_eye2(i_, j_, E_ + 0 * m_ * n_), (a_real_eye2)(m, n, O));
+    HY_BOTH("tri2", a_real_tri2(r_, c_, L_ + 0 * r_), (a_real_tri2)(m, n, O));
+    HY_BOTH("diag2", a_real_diag2(row_, col_, ptr_ + hdr + 0 * col_, a_ + 0 * row_), (a_real_diag2)(m, n, W + hdr, O));
+    HY_BOTH("triL2", a_real_triL2(m_, n_, p_ + hdr + 0 * n_, L_ + 0 * m_), (a_real_triL2)(m, n, W + hdr, O));
+    HY_BOTH("triU2", a_real_triU2(m_, k_, it_ + hdr + 0 * k_, U_ + 0 * m_), (a_real_triU2)(m, n, W + hdr, O));
+    if (m == n)
+    {
+        /* the matrix sits n_ cells into the workspace here: an argument that has to be evaluated with the CALLER's n_ */
+        HY_BOTH("eye1", a_real_eye1(n_, E_ + n_ - num_), (a_real_eye1)(n, O));
+        HY_BOTH("tri1", a_real_tri1(num_, L_ + 0 * n_), (a_real_tri1)(n, O));
+        HY_BOTH("diag", a_real_diag(n_, A_ + n_, O_ + 0 * n_), (a_real_diag)(n, W + n, O));
+        HY_BOTH("diag1", a_real_diag1(n_, x_ + n_, a_ + 0 * n_), (a_real_diag1)(n, W + n, O));
+        HY_BOTH("triL", a_real_triL(n_, A_ + n_, L_ + 0 * n_), (a_real_triL)(n, W + n, O));
+        HY_BOTH("triL1", a_real_triL1(i_, A_ + i_, L_ + 0 * n_), (a_real_triL1)(n, W + n, O));
+        HY_BOTH("triU", a_real_triU(c_, ptr_ + c_, U_ + 0 * m_), (a_real_triU)(n, W + n, O));
+        HY_BOTH("triU1", a_real_triU1(k_, p_ + k_, U_ + 0 * r_), (a_real_triU1)(n, W + n, O));
+        memcpy(o1, W + n, mn * sizeof(double)); memcpy(o2, W + n, mn * sizeof(double));
+        { double *T_ = o1; a_real_T1(n_, T_ + 0 * n_); }
+        (a_real_T1)(n, o2);
+        ++vf.evals;
+        VF_COUNT("call-spelled-with-house-style-identifiers-vs-function");
+        if (memcmp(o1, o2, mn * sizeof(double)) != 0) { vf_viol("T1/call-site-spelling-changes-the-result", "n=%u", n); }
+    }
+    /* the four products on (m x n)(n x m) -> m x m, operands taken from the workspace */
+    if ((size_t)m * m <= mn + hdr && mn)
+    {
+        HY_BOTH("mulmm", a_real_mulmm(m_, n_, r_, A_ + hdr, ptr_ + hdr + 0 * n_, O_ + 0 * m_), (a_real_mulmm)(m, n, m, W + hdr, W + hdr, O));
+        HY_BOTH("mulTm", a_real_mulTm(c_, i_, row_, p_ + hdr, it_ + hdr + 0 * c_, O_ + 0 * i_), (a_real_mulTm)(n, m, m, W + hdr, W + hdr, O));
+        HY_BOTH("mulmT", a_real_mulmT(row_, i_, col_, x_ + hdr, A_ + hdr + 0 * col_, O_ + 0 * row_), (a_real_mulmT)(m, m, n, W + hdr, W + hdr, O));
+        HY_BOTH("mulTT", a_real_mulTT(r_, k_, m_, A_ + hdr, p_ + hdr + 0 * k_, O_ + 0 * r_), (a_real_mulTT)(m, n, m, W + hdr, W + hdr, O));
+    }
+#undef HY_BOTH
+    free(W); free(o1); free(o2);
+}
+
 static void vf_case(uint64_t c, vf_rng *r)
 {
     plan_t const p = plan[c];
@@ -835,6 +898,7 @@ static void vf_case(uint64_t c, vf_rng *r)
         unsigned const lo = blk * REP_BLOCK, hi = lo + REP_BLOCK < rect_reps ? lo + REP_BLOCK : rect_reps;
         vf_log("rectangular kernels, exhaustive shape set: m=%u n=%u, contents %u..%u of %u", m, n, lo, hi - 1, rect_reps);
         for (unsigned rep = lo; rep < hi; ++rep) { run_rect(m, n, (int)(rep % CT_COUNT), r); }
+        hygiene_call_sites(m, n, r);
         VF_COUNT("exhaustive-rect-shape-cases");
         break;
     }
